@@ -191,7 +191,7 @@ CO_ERR CODictRdBuffer(CO_DICT *cod, uint32_t key, uint8_t *buf, uint32_t len)
 
     obj = CODictFind(cod, key);
     if (obj != NULL) {
-        result = COObjRdBufStart(obj, cod->Node, (void *)buf, (uint8_t)len);
+        result = COObjRdBufStart(obj, cod->Node, (void *)buf, len);
     }
     return(result);
 }
@@ -206,7 +206,7 @@ CO_ERR CODictWrBuffer(CO_DICT *cod, uint32_t key, uint8_t *buf, uint32_t len)
 
     obj = CODictFind(cod, key);
     if (obj != NULL) {
-        result = COObjWrBufStart(obj, cod->Node, (void *)buf, (uint8_t)len);
+        result = COObjWrBufStart(obj, cod->Node, (void *)buf, len);
     }
     return(result);
 }
